@@ -811,3 +811,21 @@ mod test {
         }
     }
 }
+
+/// Verification-only entry points (feature `trustfall_verif`).
+#[cfg(feature = "trustfall_verif")]
+impl Type {
+    pub fn verif_is_scalar_only_subtype(&self, maybe_subtype: &Self) -> bool {
+        self.is_scalar_only_subtype(maybe_subtype)
+    }
+    pub fn verif_equal_ignoring_nullability(&self, other: &Self) -> bool {
+        self.equal_ignoring_nullability(other)
+    }
+    pub fn verif_is_orderable(&self) -> bool {
+        self.is_orderable()
+    }
+    /// Read-only view of the modifier bits.
+    pub fn verif_mask(&self) -> u64 {
+        self.modifiers.mask
+    }
+}
